@@ -76,6 +76,10 @@ impl<'a> PerTypeLookup<'a> {
 		}
 		let mut per_direct_union_variant = [NoneSomeOrConflict::None; N_VARIANTS];
 		let per_name = std::cell::RefCell::new(HashMap::new());
+		// Names that are only registered for convenience (as opposed to the name that the
+		// deserializer reports for the variant) must never take precedence over the
+		// actual name of another variant, so we keep them separate until the end
+		let per_alias = std::cell::RefCell::new(HashMap::new());
 		for (discriminant, &schema_node) in variants.iter().enumerate() {
 			let discriminant: i64 = discriminant
 				.try_into()
@@ -122,15 +126,19 @@ impl<'a> PerTypeLookup<'a> {
 				}
 			};
 			let register_name = |name: &Name| {
-				let mut per_name = per_name.borrow_mut();
-				per_name.insert(
+				per_alias.borrow_mut().insert(
 					Cow::Owned(name.name().to_owned()),
 					(discriminant, schema_node),
 				);
-				per_name.insert(
+				per_name.borrow_mut().insert(
 					Cow::Owned(name.fully_qualified_name().to_owned()),
 					(discriminant, schema_node),
 				);
+			};
+			let register_type_name_alias = |type_name: &'static str| {
+				per_alias
+					.borrow_mut()
+					.insert(Cow::Borrowed(type_name), (discriminant, schema_node));
 			};
 			let register_type_name = |type_name: &'static str| {
 				per_name
@@ -222,12 +230,15 @@ impl<'a> PerTypeLookup<'a> {
 					register(UnionVariantLookupKey::SeqOrTupleOrTupleStruct, 2);
 				}
 				SchemaNode::Decimal(Decimal { repr, .. }) => {
-					register_type_name("Decimal");
 					match repr {
 						DecimalRepr::Fixed(fixed) => {
+							// The deserializer reports the name of the fixed
+							register_type_name_alias("Decimal");
 							register_name(&fixed.name);
 						}
-						DecimalRepr::Bytes => {}
+						DecimalRepr::Bytes => {
+							register_type_name("Decimal");
+						}
 					}
 					register(UnionVariantLookupKey::Integer, 5);
 					register(UnionVariantLookupKey::Integer4, 5);
@@ -298,8 +309,12 @@ impl<'a> PerTypeLookup<'a> {
 			} => Some(discriminant_and_schema_node),
 			NoneSomeOrConflict::Conflict { .. } => None,
 		});
+		let mut per_name = per_name.into_inner();
+		for (alias, variant) in per_alias.into_inner() {
+			per_name.entry(alias).or_insert(variant);
+		}
 		PerTypeLookup {
-			per_name: per_name.into_inner(),
+			per_name,
 			per_direct_union_variant,
 		}
 	}
